@@ -303,3 +303,242 @@ T('c16i_options_built_once_copy_module', ['C16'],
   (CK, 'import base64\n', 'import base64\nimport copy\n'),
   (CK, _EXPIRY_ATTR, _BUILT_ONCE),
   (CK, _KWARGS, "        template = self._save_cookie_kwargs\n        save_cookie_kwargs = copy.copy(template)\n"))
+
+# ---------------------------------------------------------------- R16.f: the random default key is drawn per construction
+_IMPORT = 'import base64\n'
+_NOW = 'NOW = \'now\'\n'
+_CLSATTR = '    _cookie_type = JSONCookie\n'
+_INIT_TAIL = '                 data_expiry=None):\n'
+_GET_RANDOM = '    def _get_random(self):\n'
+B('c16i_key_default_argument_of_helper', ['C16'], 'R16.f',
+  (CK, _NOW, _NOW + '\n\ndef _pick_secret_key(secret_key=None, random_key=os.urandom(20)):\n    return secret_key or random_key\n'),
+  (CK, _SECRET, '        self.secret_key = _pick_secret_key(secret_key)\n'))
+B('c16i_key_default_argument_of_constructor', ['C16'], 'R16.f',
+  (CK, '                 secret_key=None,\n', '                 secret_key=os.urandom(20),\n'))
+B('c16i_key_class_attribute', ['C16'], 'R16.f',
+  (CK, _CLSATTR, _CLSATTR + '    _default_key = os.urandom(20)\n'),
+  (CK, _SECRET, '        self.secret_key = secret_key or self._default_key\n'))
+B('c16i_key_module_constant', ['C16'], 'R16.f',
+  (CK, _NOW, _NOW + '_KEY = os.urandom(20)\n'),
+  (CK, _SECRET, '        secret_key = secret_key or _KEY\n        self.secret_key = secret_key\n'))
+B('c16i_key_memoised_factory', ['C16'], 'R16.f',
+  (CK, _IMPORT, _IMPORT + 'import functools\n'),
+  (CK, _NOW, _NOW + '\n\n@functools.lru_cache(maxsize=None)\ndef random_key():\n    return os.urandom(20)\n'),
+  (CK, _SECRET, '        self.secret_key = secret_key or random_key()\n'))
+B('c16i_key_memoised_staticmethod', ['C16'], 'R16.f',
+  (CK, _IMPORT, _IMPORT + 'from functools import lru_cache\n'),
+  (CK, _GET_RANDOM, '    @staticmethod\n    @lru_cache()\n    def _get_random():\n'))
+B('c16i_key_lazy_module_global', ['C16'], 'R16.f',
+  (CK, _NOW, _NOW + '_process_key = None\n'),
+  (CK, _SECRET, '        global _process_key\n        if _process_key is None:\n            _process_key = os.urandom(20)\n'
+                '        self.secret_key = secret_key or _process_key\n'))
+B('c16i_key_lazy_class_attribute', ['C16'], 'R16.f',
+  (CK, _CLSATTR, _CLSATTR + '    _shared_key = None\n'),
+  (CK, _SECRET, '        if type(self)._shared_key is None:\n            type(self)._shared_key = os.urandom(20)\n'
+                '        self.secret_key = secret_key or type(self)._shared_key\n'))
+B('c16i_key_default_argument_through_factory', ['C16'], 'R16.f',
+  (CK, _NOW, _NOW + '\n\ndef new_key(size=20):\n    return os.urandom(size)\n\n\ndef pick_key(given, fallback=new_key()):\n    return given or fallback\n'),
+  (CK, _SECRET, '        self.secret_key = pick_key(secret_key)\n'))
+T('c16i_key_public_factory', ['C16'],
+  (CK, _NOW, _NOW + '\n\ndef new_key(size=20):\n    return os.urandom(size)\n'),
+  (CK, _SECRET, '        self.secret_key = secret_key or new_key()\n'))
+T('c16i_key_private_helper_constant_defaults', ['C16'],
+  (CK, _NOW, _NOW + '\n\ndef _pick_secret_key(secret_key=None, size=20):\n    return secret_key or os.urandom(size)\n'),
+  (CK, _SECRET, '        self.secret_key = _pick_secret_key(secret_key)\n'))
+T('c16i_key_lambda_default_called', ['C16'],
+  (CK, _INIT_TAIL, '                 data_expiry=None,\n                 _keygen=lambda: os.urandom(20)):\n'),
+  (CK, _SECRET, '        self.secret_key = secret_key or _keygen()\n'))
+T('c16i_key_module_partial', ['C16'],
+  (CK, _IMPORT, _IMPORT + 'import functools\n'),
+  (CK, _NOW, _NOW + '_new_key = functools.partial(os.urandom, 20)\n'),
+  (CK, _SECRET, '        self.secret_key = secret_key or _new_key()\n'))
+T('c16i_key_module_lambda', ['C16'],
+  (CK, _NOW, _NOW + 'new_key = lambda size=20: os.urandom(size)\n'),
+  (CK, _SECRET, '        self.secret_key = secret_key or new_key()\n'))
+T('c16i_key_imported_name', ['C16'],
+  (CK, _IMPORT, _IMPORT + 'from os import urandom\n'),
+  (CK, _SECRET, '        self.secret_key = secret_key or urandom(20)\n'))
+T('c16i_key_classmethod_factory', ['C16'],
+  (CK, _SECRET, '        self.secret_key = secret_key or type(self).new_key()\n'),
+  (CK, _GET_RANDOM, '    @classmethod\n    def new_key(cls):\n        return os.urandom(20)\n\n' + _GET_RANDOM))
+T('c16i_key_memoised_per_instance', ['C16'],
+  (CK, _IMPORT, _IMPORT + 'import functools\n'),
+  (CK, _GET_RANDOM, '    @functools.lru_cache()\n' + _GET_RANDOM))
+B('c16i_key_public_factory_short', ['C16'], 'R16.d',
+  (CK, _NOW, _NOW + '\n\ndef new_key(size=20):\n    return os.urandom(size)\n'),
+  (CK, _SECRET, '        self.secret_key = secret_key or new_key(8)\n'))
+B('c16i_key_constant_default_argument', ['C16'], 'R16.d',
+  (CK, '                 secret_key=None,\n', "                 secret_key=b'clastic',\n"))
+
+# ---------------------------------------------------------------- the codec / MAC plumbing seen along the MRO (mixin first in the bases)
+_CLS_HEAD = 'class JSONCookie(SecureCookie):\n    serialization_method = json\n'
+_UNSER_HEAD = '    @classmethod\n    def unserialize(cls, string, secret_key):\n'
+T('c16i_codec_mixin_first', ['C16'],
+  (CK, _CLS_HEAD, 'class _Codec(object):\n    serialization_method = json\n'),
+  (CK, _UNSER_HEAD, '\nclass JSONCookie(_Codec, SecureCookie):\n\n' + _UNSER_HEAD))
+T('c16i_serializer_import_alias', ['C16'],
+  (CK, 'import json\n', 'import json as _json\n'),
+  (CK, '    serialization_method = json\n', '    serialization_method = _json\n'))
+B('c16i_codec_mixin_raw_unicode', ['C16'], 'R16.b',
+  (CK, _CLS_HEAD, 'class _Codec(object):\n    serialization_method = json\n'),
+  (CK, _UNSER_HEAD, '\nclass JSONCookie(_Codec, SecureCookie):\n\n' + _UNSER_HEAD),
+  (CK, "        ret = cls.serialization_method.dumps(value)\n", "        ret = cls.serialization_method.dumps(value, ensure_ascii=False)\n"))
+B('c16i_mixin_overrides_hash_method', ['C16'], 'R16.c',
+  (CK, _CLS_HEAD, 'class _Codec(object):\n    serialization_method = json\n    hash_method = staticmethod(lambda *a: None)\n'),
+  (CK, _UNSER_HEAD, '\nclass JSONCookie(_Codec, SecureCookie):\n\n' + _UNSER_HEAD))
+B('c16i_mixin_overrides_serialize', ['C16'], 'R16.c',
+  (CK, _CLS_HEAD, 'class _Codec(object):\n    serialization_method = json\n\n    def serialize(self, expires=None):\n        return b"?".join([b"", b""])\n'),
+  (CK, _UNSER_HEAD, '\nclass JSONCookie(_Codec, SecureCookie):\n\n' + _UNSER_HEAD))
+B('c16i_mixin_serializer_mismatch', ['C16'], 'R16.b',
+  (CK, 'import json\n', 'import json\nimport pickle\n'),
+  (CK, _CLS_HEAD, 'class _Codec(object):\n    serialization_method = json\n'),
+  (CK, _UNSER_HEAD, '\nclass JSONCookie(_Codec, SecureCookie):\n    serialization_method = pickle\n\n' + _UNSER_HEAD),
+  (CK, "        ret = cls.serialization_method.dumps(value)\n", "        ret = json.dumps(value)\n"))
+
+# ---------------------------------------------------------------- R16.h: a modified cookie is written back (should_save / constructor overrides)
+_SM = '    serialization_method = json\n'
+_INIT3 = '    def __init__(self, data=None, secret_key=None, new=True):\n        super(JSONCookie, self).__init__(data, secret_key, new)\n'
+_SHOULD = '\n    @property\n    def should_save(self):\n'
+
+
+def _jc(body, *more):
+    return ((CK, _SM, _SM + '\n' + body),) + more
+
+
+B('c16i_should_save_shallow_snapshot', ['C16'], 'R16.h',
+  *_jc(_INIT3 + '        self._client_state = dict(self)\n' + _SHOULD + '        return self.modified and self != self._client_state\n'))
+B('c16i_should_save_copy_method_snapshot', ['C16'], 'R16.h',
+  *_jc(_INIT3 + '        self._sent = self.copy()\n' + _SHOULD + '        unchanged = self == self._sent\n        return self.modified and not unchanged\n'))
+B('c16i_should_save_snapshot_is_the_data', ['C16'], 'R16.h',
+  *_jc(_INIT3 + '        self._seen = data or {}\n' + _SHOULD + '        if not self.modified:\n            return False\n        return dict(self) != self._seen\n'))
+B('c16i_should_save_comprehension_snapshot', ['C16'], 'R16.h',
+  *_jc(_INIT3 + '        self._held = {k: v for k, v in self.items()}\n' + _SHOULD + '        return self.modified and self._held != dict(self)\n'))
+B('c16i_should_save_never', ['C16'], 'R16.h', *_jc('    should_save = False\n'.replace('    should_save = False\n', '    @property\n    def should_save(self):\n        return False\n')))
+B('c16i_should_save_falls_off', ['C16'], 'R16.h', *_jc('    @property\n    def should_save(self):\n        if self.modified:\n            return True\n'))
+B('c16i_constructor_drops_key', ['C16'], 'R16.h',
+  *_jc('    def __init__(self, data=None, secret_key=None, new=True):\n        super(JSONCookie, self).__init__(data, None, new)\n'))
+B('c16i_constructor_adds_data', ['C16'], 'R16.h',
+  *_jc(_INIT3 + "        self['_seen'] = time.time()\n"))
+B('c16i_constructor_base_call_conditional', ['C16'], 'R16.h',
+  *_jc('    def __init__(self, data=None, secret_key=None, new=True):\n        if data:\n            SecureCookie.__init__(self, data, secret_key, new)\n'))
+T('c16i_should_save_deep_snapshot', ['C16'],
+  (CK, 'import base64\n', 'import base64\nimport copy\n'),
+  *_jc(_INIT3 + '        self._client_state = copy.deepcopy(dict(self))\n' + _SHOULD + '        return self.modified and self != self._client_state\n'))
+T('c16i_should_save_serialised_snapshot', ['C16'],
+  *_jc(_INIT3 + '        self._client_state = json.dumps(dict(self), sort_keys=True)\n' + _SHOULD +
+       '        return self.modified and json.dumps(dict(self), sort_keys=True) != self._client_state\n'))
+T('c16i_should_save_restated', ['C16'], *_jc('    @property\n    def should_save(self):\n        return self.modified\n'))
+T('c16i_should_save_delegated', ['C16'], *_jc('    @property\n    def should_save(self):\n        return super(JSONCookie, self).should_save\n'))
+T('c16i_constructor_pass_through', ['C16'],
+  *_jc('    def __init__(self, *args, **kwargs):\n        super(JSONCookie, self).__init__(*args, **kwargs)\n        self._loaded_at = None\n'))
+T('c16i_constructor_unbound_base_call', ['C16'],
+  *_jc('    def __init__(self, data=None, secret_key=None, new=True):\n        SecureCookie.__init__(self, data, secret_key=secret_key, new=new)\n        self._note = None\n'))
+
+# ---------------------------------------------------------------- R16.g: one cookie object, unchanged, from verification to save
+_NEXT = '        response = next(**{self.arg_name: cookie})\n'
+_STRIP = '        string = string.strip(\'"\')\n'
+B('c16i_unverified_shortcut', ['C16'], 'R16.g',
+  _unser(_STRIP + '        if string.startswith("{"):\n            return cls(json.loads(string), secret_key, False)\n        try:\n'
+         '            return super(cls, JSONCookie).unserialize(string, secret_key)\n        except Exception:\n            return cls((), secret_key, False)'))
+B('c16i_verified_cookie_annotated', ['C16'], 'R16.g',
+  _unser(_STRIP + '        try:\n            loaded = super(cls, JSONCookie).unserialize(string, secret_key)\n'
+         '        except Exception:\n            loaded = cls((), secret_key, False)\n        loaded["raw"] = string\n        return loaded'))
+B('c16i_verified_cookie_updated_in_else', ['C16'], 'R16.g',
+  _unser(_STRIP + '        try:\n            loaded = super(cls, JSONCookie).unserialize(string, secret_key)\n'
+         '        except Exception:\n            return cls((), secret_key, False)\n        else:\n            loaded.update(source="cookie")\n            return loaded'))
+B('c16i_returns_none_for_blank', ['C16'], 'R16.g',
+  _unser(_STRIP + '        if not string:\n            return None\n        try:\n'
+         '            return super(cls, JSONCookie).unserialize(string, secret_key)\n        except Exception:\n            return cls((), secret_key, False)'))
+B('c16i_cookie_rebound_before_endpoint', ['C16'], 'R16.g',
+  (CK, _NEXT, '        if not cookie:\n            cookie = self._cookie_type({"guest": True}, self.secret_key)\n' + _NEXT))
+B('c16i_cookie_copy_saved', ['C16'], 'R16.g',
+  (CK, _KWARGS, '        cookie = self._cookie_type(dict(cookie), self.secret_key, False)\n' + _KWARGS))
+B('c16i_middleware_stores_data', ['C16'], 'R16.g',
+  (CK, _NEXT, _NEXT + "        cookie['last_seen'] = time.time()\n"))
+B('c16i_middleware_counts_visits', ['C16'], 'R16.g',
+  (CK, _NEXT, "        cookie.setdefault('visits', 0)\n" + _NEXT))
+B('c16i_stamp_before_endpoint', ['C16'], 'R16.g',
+  (CK, _NEXT + _STAMP, _STAMP + _NEXT))
+B('c16i_stamp_from_request', ['C16'], 'R16.g',
+  (CK, "                cookie['_expires'] = time.time() + self.expiry\n",
+       "                ttl = request.args.get('ttl', self.expiry)\n                cookie['_expires'] = time.time() + float(ttl)\n"))
+B('c16i_signed_expiry_from_request_mapping', ['C16'], 'R16.g',
+  (CK, "            save_cookie_kwargs['expires'] = cookie['_expires']\n",
+       "            save_cookie_kwargs['expires'] = request.args.get('until') or cookie['_expires']\n"))
+B('c16i_signed_expiry_from_request_keyword', ['C16'], 'R16.g',
+  (CK, "        cookie.save_cookie(response, **save_cookie_kwargs)\n",
+       "        until = request.headers.get('X-Session-Until')\n        cookie.save_cookie(response, session_expires=until, **save_cookie_kwargs)\n"))
+T('c16i_stamp_clock_local', ['C16'],
+  (CK, "                cookie['_expires'] = time.time() + self.expiry\n",
+       "                now = time.time()\n                lifetime = self.expiry\n                cookie['_expires'] = now + lifetime\n"))
+T('c16i_blank_string_is_empty_cookie', ['C16'],
+  _unser(_STRIP + '        if not string:\n            return cls((), secret_key, False)\n        try:\n'
+         '            return super(cls, JSONCookie).unserialize(string, secret_key)\n        except Exception:\n            return cls((), secret_key, False)'))
+T('c16i_cookie_alias_saved', ['C16'],
+  (CK, "        cookie.save_cookie(response, **save_cookie_kwargs)\n", "        jar = cookie\n        jar.save_cookie(response, **save_cookie_kwargs)\n"))
+T('c16i_expiry_from_cookie_local', ['C16'],
+  (CK, "            save_cookie_kwargs['expires'] = cookie['_expires']\n",
+       "            until = cookie['_expires']\n            save_cookie_kwargs['expires'] = until\n"))
+
+# ---------------------------------------------------------------- R16.d: what is stamped is "now + configured expiry"
+_STAMP_LINE = "                cookie['_expires'] = time.time() + self.expiry\n"
+B('c16i_stamp_relative_number', ['C16'], 'R16.d', (CK, _STAMP_LINE, "                cookie['_expires'] = self.expiry\n"))
+B('c16i_stamp_subtracted', ['C16'], 'R16.d', (CK, _STAMP_LINE, "                now = time.time()\n                cookie['_expires'] = now - self.expiry\n"))
+B('c16i_stamp_now_only', ['C16'], 'R16.d',
+  (CK, _STAMP, "        if self.expiry != NEVER and self.expiry != SESSION:\n            cookie.setdefault('_expires', int(time.time()))\n"))
+T('c16i_stamp_reversed_sum_int', ['C16'], (CK, _STAMP_LINE, "                cookie['_expires'] = int(self.expiry + time.time())\n"))
+T('c16i_stamp_imported_clock', ['C16'],
+  (CK, 'import base64\n', 'import base64\nfrom time import time as _now\n'),
+  (CK, _STAMP_LINE, "                lifetime = self.expiry\n                cookie['_expires'] = _now() + lifetime\n"))
+
+# ---------------------------------------------------------------- R16.a: clastic's own decoding of client data is guarded too
+B('c16i_own_decode_unguarded', ['C16'], 'R16.a',
+  _unser('        string = string.strip(\'"\')\n        if isinstance(string, bytes):\n            string = string.decode("ascii")\n        try:\n'
+         '            return super(cls, JSONCookie).unserialize(string, secret_key)\n        except Exception:\n            return cls((), secret_key, False)'))
+B('c16i_own_split_unguarded', ['C16'], 'R16.a',
+  _unser('        string = string.strip(\'"\')\n        mac, payload = string.split("?")\n        try:\n'
+         '            return super(cls, JSONCookie).unserialize(mac + "?" + payload, secret_key)\n        except Exception:\n            return cls((), secret_key, False)'))
+B('c16i_own_decode_in_middleware', ['C16'], 'R16.a',
+  (CK, _LOAD, "        version = int(request.cookies.get(self.cookie_name + '_v', '1'))\n" + _LOAD))
+T('c16i_own_decode_guarded', ['C16'],
+  _unser('        string = string.strip(\'"\')\n        try:\n            if string.isdigit() and int(string) == 0:\n                return cls((), secret_key, False)\n'
+         '            return super(cls, JSONCookie).unserialize(string, secret_key)\n        except Exception:\n            return cls((), secret_key, False)'))
+
+# ---------------------------------------------------------------- the guard against malformed cookies written in the middleware instead
+_UNSER_PLAIN = '        string = string.strip(\'"\')\n        return super(cls, JSONCookie).unserialize(string, secret_key)'
+_LOAD_GUARDED = ("        try:\n            cookie = self._cookie_type.load_cookie(request, key=self.cookie_name, secret_key=self.secret_key)\n"
+                 "        except Exception:\n            cookie = self._cookie_type(None, self.secret_key)\n")
+T('c16i_guard_in_middleware_binds_empty_cookie', ['C16'], _unser(_UNSER_PLAIN), (CK, _LOAD, _LOAD_GUARDED))
+B('c16i_guard_in_middleware_binds_request_data', ['C16'], 'R16.g', _unser(_UNSER_PLAIN),
+  (CK, _LOAD, _LOAD_GUARDED.replace('self._cookie_type(None, self.secret_key)', 'self._cookie_type(dict(request.args), self.secret_key)')))
+B('c16i_guard_in_middleware_without_key', ['C16'], 'R16.g', _unser(_UNSER_PLAIN),
+  (CK, _LOAD, _LOAD_GUARDED.replace('self._cookie_type(None, self.secret_key)', 'self._cookie_type()')))
+
+# ---------------------------------------------------------------- further spellings of the key plumbing / the stamp
+T('c16i_key_size_class_constant', ['C16'],
+  (CK, _CLSATTR, _CLSATTR + '    KEY_BYTES = 20\n'),
+  (CK, '        return os.urandom(20)\n', '        return os.urandom(self.KEY_BYTES)\n'))
+B('c16i_key_size_class_constant_short', ['C16'], 'R16.d',
+  (CK, _CLSATTR, _CLSATTR + '    KEY_BYTES = 8\n'),
+  (CK, '        return os.urandom(20)\n', '        return os.urandom(self.KEY_BYTES)\n'))
+T('c16i_key_hex_encoded', ['C16'],
+  (CK, 'import base64\n', 'import base64\nimport binascii\n'),
+  (CK, '        return os.urandom(20)\n', '        return binascii.hexlify(os.urandom(20))\n'))
+B('c16i_key_hex_encoded_module_constant', ['C16'], 'R16.f',
+  (CK, 'import base64\n', 'import base64\nimport binascii\n'),
+  (CK, _NOW, _NOW + '_FALLBACK_KEY = binascii.hexlify(os.urandom(20))\n'),
+  (CK, '        return os.urandom(20)\n', '        return _FALLBACK_KEY\n'))
+T('c16i_stamp_through_set_expires', ['C16'],
+  (CK, "                cookie['_expires'] = time.time() + self.expiry\n", "                cookie.set_expires(time.time() + self.expiry)\n"))
+
+# ---------------------------------------------------------------- R16.d: the response saved on is the response returned
+_RET = '        cookie.save_cookie(response, **save_cookie_kwargs)\n        return response\n'
+B('c16i_response_rebound_after_save', ['C16'], 'R16.d',
+  (CK, 'from .core import Middleware\n', 'from .core import Middleware\nfrom werkzeug.wrappers import Response\n'),
+  (CK, _RET, '        cookie.save_cookie(response, **save_cookie_kwargs)\n        if response is None:\n            response = Response(status=204)\n        return response\n'))
+B('c16i_response_alias_rebound_before_save', ['C16'], 'R16.d',
+  (CK, 'from .core import Middleware\n', 'from .core import Middleware\nfrom werkzeug.wrappers import Response\n'),
+  (CK, _RET, '        out = response\n        if out.status_code >= 500:\n            out = Response(status=out.status_code)\n'
+             '        cookie.save_cookie(out, **save_cookie_kwargs)\n        return response\n'))
+T('c16i_response_alias_saved_and_returned', ['C16'],
+  (CK, _RET, '        out = response\n        cookie.save_cookie(out, **save_cookie_kwargs)\n        return out\n'))
